@@ -33,10 +33,20 @@ Insts == JsonDeserialize(IOEnv.QUANT_INSTS)
 \* is a sequence of scalar instances (indices into Insts) read/written as one field, found by
 \* reflection: [id, comps: <<instance index>>, extra: <<raw tuples sampled by the harness>>]
 Comps == JsonDeserialize(IOEnv.QUANT_COMPS)
+\* Parametric ranges.  A FAMILY is a quantiser whose range [lo, hi] is not fixed in the code but
+\* arrives at run time (key-frame times: [0, duration of the animation]; directly constructed
+\* QuantizedFloat / QuantizedNumPyArray):  [id, kind, rawMin, rawMax, zmAuto, lo0only]
+\* A RANGE is [id, lo, hi, sym, lo0]: lo and hi are exact rationals "num/den" (decimal strings:
+\* the numbers go from 2^-149 to 1e150, far outside TLC's integers, and the laws below are
+\* invariant under the affine map grid -> [lo, hi], so the specification never computes with
+\* them; it only needs lo = hi (degenerate), lo = -hi (sym) and lo = 0 (lo0)).
+Fams   == JsonDeserialize(IOEnv.QUANT_FAMS)
+Ranges == JsonDeserialize(IOEnv.QUANT_RANGES)
 
 VARIABLES inst, raw,      \* scalar machine: instance index, raw value
-          ci, tup         \* composite machine: composite index, tuple of raw values
-vars == <<inst, raw, ci, tup>>
+          ci, tup,        \* composite machine: composite index, tuple of raw values
+          pf, pr          \* parametric machine: family index, range index (raw is shared)
+vars == <<inst, raw, ci, tup, pf, pr>>
 
 Abs(x) == IF x < 0 THEN -x ELSE x
 MinOf(a, b) == IF a < b THEN a ELSE b
@@ -73,8 +83,8 @@ NeedsZero(i) == Centred(i) /\ i.kind # "numpy"
 -----------------------------------------------------------------------------------------
 (* The machine: one state per (instance, raw) *)
 I == Insts[inst]
-Init == inst \in DOMAIN Insts /\ raw = Insts[inst].rawMin /\ ci = 0 /\ tup = <<>>
-Step == raw < I.rawMax /\ raw' = raw + 1 /\ UNCHANGED <<inst, ci, tup>>
+Init == inst \in DOMAIN Insts /\ raw = Insts[inst].rawMin /\ ci = 0 /\ tup = <<>> /\ pf = 0 /\ pr = 0
+Step == raw < I.rawMax /\ raw' = raw + 1 /\ UNCHANGED <<inst, ci, tup, pf, pr>>
 Next == Step
 Spec == Init /\ [][Next]_vars
 
@@ -129,7 +139,7 @@ Lattice(c, k) == IF k = 0 THEN {<<>>}
 C == Comps[ci]
 CInit == /\ ci \in DOMAIN Comps
          /\ tup \in Lattice(Comps[ci], Len(Comps[ci].comps)) \cup ToSet(Comps[ci].extra)
-         /\ inst = 1 /\ raw = Insts[1].rawMin
+         /\ inst = 1 /\ raw = Insts[1].rawMin /\ pf = 0 /\ pr = 0
 CNext == UNCHANGED vars
 CSpec == CInit /\ [][CNext]_vars
 
@@ -142,4 +152,80 @@ CompRoundTrip == \A k \in DOMAIN tup :
 CRow == [c |-> C.id, raws |-> tup,
          vals |-> [k \in DOMAIN tup |-> Val(CI(C, k), tup[k])],
          re   |-> [k \in DOMAIN tup |-> Enc(CI(C, k), Val(CI(C, k), tup[k]), Tag(CI(C, k), tup[k]))]]
+
+-----------------------------------------------------------------------------------------
+(* Parametric ranges.  For a family f and a non-degenerate range r the quantiser is the    *)
+(* instance PInst(f, r) on the grid of f's wire type: steps S = rawMax - rawMin, value of   *)
+(* raw k steps above rawMin is  lo + (hi - lo) * k / S.  In grid units that is the          *)
+(* instance [A = 0, B = 1, D = S] (or, for a range symmetric about zero, [A = -S, B = 2,     *)
+(* D = S] in units of hi, zero-median when the family infers it) -- every law of the scalar  *)
+(* machine applies verbatim, with "exactly lo" / "exactly hi" at the two ends of the wire    *)
+(* type, plus NEAREST: encoding any value of the range and decoding it again moves it by at  *)
+(* most half a step.  A degenerate range (lo = hi) has one value: every raw decodes to       *)
+(* exactly lo and lo encodes to rawMin (nothing else can be demanded of it).                 *)
+(* States: every (family, range) x a lattice of raws (ends +-2, centre +-2, 12 spread out).   *)
+F == Fams[pf]
+R == Ranges[pr]
+Degenerate(r) == r.lo = r.hi
+PInst(f, r) == LET S == f.rawMax - f.rawMin IN
+               [id |-> f.id, kind |-> f.kind, rawMin |-> f.rawMin, rawMax |-> f.rawMax, D |-> S,
+                A |-> IF r.sym THEN -S ELSE 0, B |-> IF r.sym THEN 2 ELSE 1,
+                lo |-> IF r.sym THEN -S ELSE 0, hi |-> S,
+                zm |-> r.sym /\ f.zmAuto, closed |-> TRUE]
+P == PInst(F, R)
+PLattice(f) == LET S == f.rawMax - f.rawMin
+                   m == f.rawMin + S \div 2 IN
+               {f.rawMin, f.rawMin + 1, f.rawMin + 2, m - 2, m - 1, m, m + 1, m + 2,
+                f.rawMax - 2, f.rawMax - 1, f.rawMax}
+               \cup {f.rawMin + (j * S) \div 13 : j \in 1..12}
+PInit == /\ pf \in DOMAIN Fams /\ pr \in DOMAIN Ranges
+         /\ Fams[pf].lo0only => Ranges[pr].lo0
+         /\ raw \in PLattice(Fams[pf])
+         /\ inst = 1 /\ ci = 0 /\ tup = <<>>
+PNext == UNCHANGED vars
+PSpec == PInit /\ [][PNext]_vars
+
+\* n / d rounded to the nearest integer, ties to even; n >= 0, d > 0
+RoundHalfEven(n, d) ==
+    LET q == n \div d
+        m == n % d
+    IN IF 2 * m < d THEN q
+       ELSE IF 2 * m > d THEN q + 1
+       ELSE IF q % 2 = 0 THEN q ELSE q + 1
+\* the ideal quantiser on quarter-step numerators n4 (value = n4 / 4 in numerator units)
+Clamp4(i, n4)  == MaxOf(4 * i.lo, MinOf(4 * i.hi, n4))
+EncNear(i, n4) == i.rawMin + RoundHalfEven(Clamp4(i, n4) - 4 * i.A, 4 * i.B)
+\* raws whose grid value is within half a step of the (clamped) value n4 / 4
+Allowed(i, r, n4) == {q \in MaxOf(i.rawMin, r - 2)..MinOf(i.rawMax, r + 2) :
+                        2 * Abs(4 * Num(i, q) - Clamp4(i, n4)) <= 4 * i.B}
+\* probes: a quarter and a half step to either side of the meaning of the current raw
+Probe(i, r, s) == 4 * Val(i, r) + s * i.B
+ProbeSet == {-2, -1, 1, 2}
+
+PTypeOK == /\ F.rawMin <= raw /\ raw <= F.rawMax /\ (F.lo0only => R.lo0)
+           /\ (R.sym => ~Degenerate(R) /\ ~R.lo0) /\ (Degenerate(R) => ~R.sym)
+PRoundTrip == ~Degenerate(R) => OnGrid(P, Val(P, raw), Tag(P, raw)) /\ Enc(P, Val(P, raw), Tag(P, raw)) = raw
+PMonotone  == (~Degenerate(R) /\ raw > F.rawMin) =>
+                \/ Val(P, raw - 1) < Val(P, raw)
+                \/ Val(P, raw - 1) = Val(P, raw) /\ Tag(P, raw - 1) = "neg" /\ Tag(P, raw) = "pos"
+\* the two ends of the wire type mean exactly lo and exactly hi, and go back there
+PEnds == ~Degenerate(R) =>
+           /\ raw = F.rawMin => (Val(P, raw) = P.lo /\ Enc(P, P.lo, "none") = raw)
+           /\ raw = F.rawMax => (Val(P, raw) = P.hi /\ HiOnGrid(P) /\ Enc(P, P.hi, "none") = raw)
+PZero == (~Degenerate(R) /\ raw = F.rawMin /\ NeedsZero(P)) => \E q \in F.rawMin..F.rawMax : Val(P, q) = 0
+\* decode after encode moves a value by at most half a step; a value a quarter step off the grid
+\* has exactly one such raw, the one it came from (unless clamped at an end)
+PNearest == ~Degenerate(R) => \A s \in ProbeSet :
+              LET n4 == Probe(P, raw, s) IN
+              /\ EncNear(P, n4) \in Allowed(P, raw, n4)
+              /\ (s \in {-1, 1} /\ Clamp4(P, n4) = n4 /\ ~Snap(P, raw)) => Allowed(P, raw, n4) = {Enc(P, Val(P, raw), Tag(P, raw))}
+PEndOf(f, r) == IF r = f.rawMin THEN "lo" ELSE IF r = f.rawMax THEN "hi" ELSE ""
+PRow == IF Degenerate(R)
+        THEN [f |-> F.id, rg |-> R.id, raw |-> raw, deg |-> TRUE, val |-> 0, D |-> 1, sym |-> FALSE, end |-> "lo",
+              re |-> F.rawMin, zero |-> FALSE, near |-> <<>>]
+        ELSE [f |-> F.id, rg |-> R.id, raw |-> raw, deg |-> FALSE, val |-> Val(P, raw), D |-> P.D, sym |-> R.sym,
+              end |-> PEndOf(F, raw), re |-> Enc(P, Val(P, raw), Tag(P, raw)),
+              zero |-> (NeedsZero(P) /\ Val(P, raw) = 0),
+              near |-> [k \in 1..4 |-> LET s == IF k = 1 THEN -2 ELSE IF k = 2 THEN -1 ELSE IF k = 3 THEN 1 ELSE 2 IN
+                                       [n4 |-> Clamp4(P, Probe(P, raw, s)), ok |-> Allowed(P, raw, Probe(P, raw, s))]]]
 ====
